@@ -81,6 +81,7 @@ FLOORS = {
     'doc:nonxml-ws': (0.3, 'doc:case'),
     'doc:backend:lxml': (0.25, 'doc:case'),
     'coll:codepoint-equal': (0.12, 'coll:case'),
+    'coll:relative-uri': (0.2, 'coll:case'),
     'coll:non-ascii-case': (0.6, 'coll:case'),
     'coll:case-variant-needle': (0.12, 'coll:case'),
     'coll:html-default': (0.2, 'coll:case'),
@@ -1342,6 +1343,33 @@ _COLL_FNS = ['contains', 'starts-with', 'ends-with', 'substring-before', 'substr
 COLL_BATCH = 24
 
 
+_FO = 'http://www.w3.org/2005/xpath-functions/'
+_REL_NAME = {'cp': 'codepoint', 'html': 'html-ascii-case-insensitive'}
+#: (parser base_uri, relative form of the collation argument; None = the relative URI is given as default_collation)
+_REL_CONFIGS = [(_FO + 'collation/', '{n}'), (_FO + 'collation/', './{n}'), (_FO + 'collation/', '../collation/{n}'),
+                (_FO, 'collation/{n}'), (_FO + 'collation/file.xml', '{n}'), (_FO + 'x/y', '../collation/{n}'),
+                (_FO + 'collation/', None), (_FO + 'collation/', '{n}')]
+_REL_PARSERS: dict = {}
+_REL_TOKENS: dict = {}
+
+
+def _evaluate_rel(ver, dc, rel, expr, variables):
+    """like _evaluate, on a parser with a static base URI (and, for the None form, a relative default collation)"""
+    from elementpath import XPathContext, ElementPathError
+    base, form = _REL_CONFIGS[rel]
+    try:
+        p = _REL_PARSERS.get((ver, dc, rel))
+        if p is None:
+            cls = type(_parser(ver))
+            p = _REL_PARSERS[(ver, dc, rel)] = cls(base_uri=base, default_collation=_REL_NAME[dc] if form is None else _COLL[dc])
+        tk = _REL_TOKENS.get((ver, dc, rel, expr))
+        if tk is None:
+            tk = _REL_TOKENS[(ver, dc, rel, expr)] = p.parse(expr)
+        return ('ok', tk.get_results(XPathContext(_root(), variables=dict(variables))))
+    except ElementPathError as e:
+        return ('error', (e.code or '').split(':')[-1], str(e))
+
+
 def _mk_coll(mx: _Mix) -> dict:
     n = 1 + mx.below(7)
     s = ''.join(mx.pick(mx.pick(_CASE_GROUPS)) if mx.below(6) else mx.pick(_CASE_OTHER) for _ in range(n))
@@ -1377,11 +1405,24 @@ def _mk_coll(mx: _Mix) -> dict:
     arg = mx.pick([None, None, None, 'html', 'html', 'cp'])
     if dc == 'cp' and arg is None and mx.below(2):
         arg = 'html'
-    return {'ver': mx.pick(['2.0', '3.0', '3.1']), 'dc': dc, 'arg': arg, 'fn': fn, 's': s, 't': t}
+    case = {'ver': mx.pick(['2.0', '3.0', '3.1']), 'dc': dc, 'arg': arg, 'fn': fn, 's': s, 't': t}
+    if fn != 'codepoint-equal' and mx.below(3) == 0:
+        # relative collation URI resolved against the parser's static base URI (F&O 5.3.1)
+        rel = mx.below(len(_REL_CONFIGS))
+        case['rel'] = rel
+        if _REL_CONFIGS[rel][1] is None:
+            case['arg'] = None            # the relative URI is the parser's default collation
+            case['dc'] = dc if mx.below(2) else 'html'
+        elif arg is None:
+            case['arg'] = mx.pick(['html', 'html', 'cp'])
+    return case
 
 
 def _ascii_fold(z):
     return ''.join(chr(ord(c) + 32) if 'A' <= c <= 'Z' else c for c in z)
+
+
+_EVALUATE = _evaluate
 
 
 def judge_coll_case(case, rec: Recorder | None = None) -> list[Disc]:
@@ -1389,13 +1430,25 @@ def judge_coll_case(case, rec: Recorder | None = None) -> list[Disc]:
     discs: list[Disc] = []
     eff = arg or dc
     coll = _COLL[eff]
+    rel = case.get('rel')
     tail = '' if arg is None else ", '" + _COLL[arg] + "'"
     how = eff + ('-default' if arg is None else '-explicit')
+    if rel is not None:
+        form = _REL_CONFIGS[rel][1]
+        if arg is not None and form is not None:
+            tail = ", '" + form.format(n=_REL_NAME[arg]) + "'"
+        how += '-relative'
+
+    def _evaluate(ver_, expr_, v_, dc=dc):           # shadows the module function: relative configurations use their own parser
+        if rel is not None:
+            return _evaluate_rel(ver_, dc, rel, expr_, v_)
+        return _EVALUATE(ver_, expr_, v_, dc=dc)
+
     nonascii = any(z.lower() != _ascii_fold(z) or z.upper().lower() != _ascii_fold(z) or z.casefold() != _ascii_fold(z)
                    for z in (s, t))
     related = s != t and _ascii_fold(s) != _ascii_fold(t) and (t.casefold() in s.casefold() or t.lower() in s.lower())
     cls = 'non-ascii-case' if nonascii else 'ascii'
-    classes = ['coll:case', 'coll:fn:' + fn, 'coll:' + how, 'coll:' + cls]
+    classes = ['coll:case', 'coll:fn:' + fn, 'coll:' + how, 'coll:' + cls] + (['coll:relative-uri', 'coll:relative-uri:%d' % rel] if rel is not None else [])
     if nonascii and related:
         classes.append('coll:case-variant-needle')      # equal under some Unicode folding, different under A-Z folding
     if rec is not None:
